@@ -18,7 +18,7 @@ CLAUSES = {
     "C04": ["C04_iterates", "C04_reader", "C20_exposed"],
     "C05": ["C05_value", "C01_settles", "C20_exposed"],
     "C06": ["C06_entity", "C06_condition", "C06_enable", "C01_value", "C02_bag", "C01_settles"],
-    "C07": ["C07_decodes", "C07_form", "C07_missing_entity", "C07_entity_kind", "C07_arithmetic", "C07_decider", "C07_constant", "C07_condition",
+    "C07": ["C07_decodes", "C07_form", "C07_missing_entity", "C07_entity_kind", "C07_arithmetic", "C07_decider", "C07_constant", "C07_condition", "C07_user_property",
             "C07_wires", "C07_version", "C07_forms_differ", "C01_value", "C02_bag", "C03_value", "C06_entity", "C06_condition", "C06_enable", "C01_settles"],
     "C08": ["C08_proto", "C08_overlap", "C08_wire_ends", "C08_wire_colour", "C08_wire_reach", "C01_value", "C02_bag", "C03_value", "C06_entity",
             "C06_condition", "C06_enable", "C01_settles", "C08_layout_trace", "C08_layout_invariant", "C08_outcome"],
@@ -309,7 +309,7 @@ def c05(ctx):
     ctx.cov["rule"] = ("programs = GenMem latches (both argument orders x value 1 / constant / signal x set,reset as boolean signals, "
                        "comparisons on two inputs, comparisons on one input with disjoint / touching / overlapping thresholds); TLC explores "
                        "ALL input histories of Circuit(BP) x abstract SR/RS latch with the priority named first in the call")
-    mem_check(ctx, ("latch1", "latch2", "latchx", "latchs"), "C05_value", 44)
+    mem_check(ctx, ("latch1", "latch2", "latchx", "latchs", "latch2s"), "C05_value", 48)
 
 
 def ent_progs(prefix):
@@ -922,6 +922,9 @@ def decode_blueprint_text(text):
     raise ValueError("text is neither a blueprint string nor JSON")
 
 
+USER_BOOL_PROPS = ("send_to_train", "read_from_train", "select_max", "always_on", "use_colors")
+
+
 def prep_plan(ev):
     """Tag plan operands ([sig] / [const]) because TLC's equality is typed; everything else is passed through."""
     def tag(v):
@@ -947,7 +950,16 @@ def prep_plan(ev):
                 pr.pop(k)
         if isinstance(pr.get("signals"), list):
             pr.pop("signals")
-        pls.append({"id": pl["id"], "type": pl["type"], "props": pr})
+        rec = {"id": pl["id"], "type": pl["type"], "props": pr}
+        if pl.get("role") == "user_entity":
+            up = {k: int(bool(v)) for k, v in pr.items() if k in USER_BOOL_PROPS and isinstance(v, (bool, int))}
+            for k in up:
+                pr.pop(k)
+            if up:
+                rec["userprops"] = up
+            if pl["type"].endswith("-combinator") and not any(k in pr for k in ("operation", "conditions", "signals", "signal_name", "left_operand")):
+                rec["plain"] = True
+        pls.append(rec)
     wires = [{k: v for k, v in w.items() if v is not None} for w in ev["wires"]]
     return {"placements": pls, "wires": wires}
 
@@ -962,7 +974,8 @@ def c07(ctx):
     progs = []
     for mod, pref, n, filt in (("GenScalar", "sc", 3, lambda p: p["grp"] == "twocons"), ("GenScalar", "sc", 5, lambda p: p["grp"] in ("form", "share", "logic")),
                                ("GenBundle", "bu", 4, None),
-                               ("GenEntity", "en", 5, lambda p: p["grp"].startswith("c06:")), ("GenMem", "me", 3, lambda p: p["grp"] in ("cell", "latch1")),
+                               ("GenEntity", "en", 5, lambda p: p["grp"].startswith("c06:")),
+                               ("GenEntity", "en", 100, lambda p: p["grp"] in ("c09:props", "c09:usermade")), ("GenMem", "me", 3, lambda p: p["grp"] in ("cell", "latch1")),
                                ("GenLayout", "gl", 3, None), ("GenFL", "fl", 3, lambda p: p.get("mode") != "hist")):
         ps = with_ids(gen.generate(mod), pref)
         if filt:
@@ -976,6 +989,9 @@ def c07(ctx):
         reps = 1 if quick else 2
         for k in range(reps):
             invs.append((c, progs[(i * reps + k + ctx.seed) % len(progs)]))
+    # programs whose point is the exported configuration of user-placed entities: each at least once, under a rotating configuration
+    for j, p in enumerate([p for p in progs if p.get("grp") in ("c09:props", "c09:usermade")]):
+        invs.append((chosen[(j + ctx.seed) % len(chosen)], p))
     ctx.cov["corpus_size"] = len(confs) * len(progs)
     ctx.cov["exhaustive"] = False
     ctx.cov["rule"] = ("invocations = GenInvoke (every valid combination of entry point x file / -i input x string / --json x stdout / -o x "
@@ -1087,7 +1103,9 @@ def c07(ctx):
     # executing the decoded text gives the planned behaviour: Refine1 on the decoded text
     def item(p, rs):
         return layout_item(p, rs[""])
-    run_refine(ctx, rprogs, {"DomCap": 30 if quick else 100}, item_fn=item, batch_size=10, precompiled=compiled)
+    # (programs that only place and configure entities have no circuit behaviour to execute: their export is judged above)
+    xprogs = [q for q in rprogs if not str(q.get("grp", "")).startswith("c09:")]
+    run_refine(ctx, xprogs, {"DomCap": 30 if quick else 100}, item_fn=item, batch_size=10, precompiled=compiled)
 
 
 def design_mc(ctx, module, cfg, workers=4, timeout=900, coverage=True, xmx="3g"):
